@@ -84,6 +84,8 @@ def known_match(known, prop, cfg, op_line, msg, ctx=None):
             continue
         if "op_contains" in m and not all(s in op_line for s in m["op_contains"]):
             continue
+        if "config_prefix" in m and not any(cfg.name.startswith(x) for x in m["config_prefix"]):
+            continue
         if "cat_not" in m and cfg.cat in m["cat_not"]:
             continue
         if "cat" in m and cfg.cat not in m["cat"]:
